@@ -230,6 +230,8 @@ class ArrayWorld(object):
                      ("op.reindex", True), ("align.join", "outer"), ("display.max", 100),
                      ("io.nc.format", "NETCDF4")):
             dimarray.rcParams[k] = v
+        for k, v in sorted(cfg.get("options", {}).items()):
+            dimarray.rcParams[k] = v        # a non-default global option for this run (reset by the next run's defaults)
         self.objs = {}
         self.order = []
         self.uf = UF()
